@@ -194,6 +194,8 @@ Proof.
   - destruct (p_stack ps); intros H; inv H. split; [reflexivity | apply same_content_refl].
   - unfold set_origin. destruct (nth_error (b_items st) i); [|intros H; inv H; split; [reflexivity | apply same_content_refl]].
     destruct r; intros H; inv H; split; try reflexivity; apply same_content_refl.
+  - unfold set_header. destruct (lf_at st l); [|intros H; inv H; split; [reflexivity | apply same_content_refl]].
+    destruct is_id, r; intros H; inv H; split; try reflexivity; apply same_content_refl.
 Qed.
 
 (* ---------- C07: copy numbers make identities unique within a set ---------- *)
@@ -468,6 +470,8 @@ Proof.
   - unfold set_origin. destruct (nth_error (b_items st) i) as [it|] eqn:En; [|intros H; inv H; auto].
     assert (Hit : item_at st i = it) by (unfold item_at; apply nth_error_nth; exact En).
     destruct r; intros H Hi; inv H; try exact Hi. apply set_item_inv; [reflexivity | reflexivity | exact Hi].
+  - unfold set_header. destruct (lf_at st l); [|intros H; inv H; auto].
+    destruct is_id, r; intros H Hi; inv H; try exact Hi; apply set_lf_inv; exact Hi.
 Qed.
 
 Theorem run_ops_inv_copy : forall ops ps st, Inv_copy st -> Inv_copy (bstate_of (run_ops ps st ops)).
